@@ -16,7 +16,7 @@ From Gst Require lib.Sx lib.QAux C14.Proc C14.Proofs_proc_rank C14.Proofs_proc_p
 (* END PART proc_pimp *)
 (* BEGIN PART fft_pimp *)
 From Coq Require List ZArith QArith Znumtheory Bool Lia.
-From Gst Require C14.FFT C14.Proofs_fft_ops C14.Proofs_fft_sym C14.Proofs_fft_layout C14.Proofs_fft_misc C14.Proofs_fft_opt C14.Proofs_fft_lag.
+From Gst Require C14.FFT C14.Proofs_fft_ops C14.Proofs_fft_sym C14.Proofs_fft_layout C14.Proofs_fft_misc C14.Proofs_fft_opt C14.Proofs_fft_lag C14.Proofs_spectral_assoc.
 From Gst Require C16.Model C16.Spec.
 (* END PART fft_pimp *)
 (* BEGIN PART law_pimp *)
@@ -1155,7 +1155,7 @@ Export Part_proc.
 (* ================================ part fft ================================ *)
 Module Part_fft.
 Import List ZArith QArith Znumtheory Bool Lia.
-Import C14.FFT C14.Proofs_fft_ops C14.Proofs_fft_sym C14.Proofs_fft_layout C14.Proofs_fft_misc C14.Proofs_fft_opt C14.Proofs_fft_lag.
+Import C14.FFT C14.Proofs_fft_ops C14.Proofs_fft_sym C14.Proofs_fft_layout C14.Proofs_fft_misc C14.Proofs_fft_opt C14.Proofs_fft_lag C14.Proofs_spectral_assoc.
 Import ListNotations.
 Local Open Scope Z_scope.
 (* C14 / part fft : the theorems (index algebra of CalcSimuFFT.cpp, coefficient of SimuSpectral.cpp). *)
@@ -1440,6 +1440,26 @@ Theorem C14_old_spectral_sill_refuted :
   exists sill ns scale2, (0 < sill /\ scale2 * ns == 2 /\ ~ spectral_varcoef scale2 ns == sill)%Q.
 Proof. exact spectral_sill_refuted_old. Qed.
 Print Assumptions C14_old_spectral_sill_refuted.
+(* ANISOTROPY of the spectral simulator: the argument of the b-th cosine is omega_b . (T x) + phi_b, the isotropic frequencies applied
+   to the coordinates brought to the isotropic space by the inverse anisotropy tensor T of the structure (rotation included), for any
+   number of frequencies and any space dimension (rows of T as long as the coordinate vector) *)
+Theorem C14_spectral_args_isotropic_space : forall omega tensor phi coor,
+  (forall b, In b tensor -> length b = length coor) ->
+  Forall2 Qeq (spectral_args omega tensor phi coor) (zipplus (mat_vec omega (mat_vec tensor coor)) phi).
+Proof. exact spectral_args_assoc. Qed.
+Print Assumptions C14_spectral_args_isotropic_space.
+(* STATIONARITY with the anisotropy of the structure: the phase difference between two points is omega . T (x - y), so the dependence
+   between the values at x and y goes through T (x - y) only *)
+Theorem C14_spectral_phase_difference : forall omega tensor x y, length x = length y ->
+  Forall2 Qeq (mat_vec omega (mat_vec tensor (zipminus x y)))
+              (zipminus (mat_vec omega (mat_vec tensor x)) (mat_vec omega (mat_vec tensor y))).
+Proof. exact spectral_phase_difference. Qed.
+Print Assumptions C14_spectral_phase_difference.
+(* non-vacuity, and what a transposed tensor would do: with a rotated (non-symmetric) T the arguments differ *)
+Example C14_spectral_args_nonvacuous :
+  let omega := [[1; 2]; [3; -1]]%Q in let T := [[1; 2]; [0; 1 # 2]]%Q in let Tt := [[1; 0]; [2; 1 # 2]]%Q in
+  map Qred (spectral_args omega T [0; 1]%Q [1; 1]%Q) = [4; 19 # 2]%Q /\ map Qred (spectral_args omega Tt [0; 1]%Q [1; 1]%Q) <> [4; 19 # 2]%Q.
+Proof. split; [vm_compute; reflexivity | vm_compute; discriminate]. Qed.
 End Part_fft.
 Export Part_fft.
 (* END PART fft_props *)
